@@ -283,6 +283,10 @@ class C13(Check):
             labs = rng.sample(range(1000), N)
             wl.append(" ".join(["wm%d" % k, "wmem", str(N), str(K), "2", hexf(-rng.random() * 50)] + [str(x) for x in labs] +
                                gen.flist([rng.random() for _ in range(N * K)])))
+            nr = rng.randint(1, 4)
+            wl.append(" ".join(["wi%d" % k, "winfo", str(nr), str(rng.choice([0, 7, 5489, 2 ** 31 - 1])), str(nr)] +
+                               [x for i in range(nr) for x in (str(rng.randint(1, 500)), rng.choice(["MAX_ITER", "CONVERGED"]),
+                                                              hexf(-rng.random() * 10 ** rng.randint(0, 5)))]))
         self.correspond("writers", wl, rtol=1e-5)
         self.cov["rule"] = ("random command lines: all 8 flag combinations of --undirected/--assortative/--w, K 2-4, --r/--maxit/--y/--s/--o present or absent in shuffled order, "
                             "adjacency files rendered in random layouts of the grammar (indentation, tabs, trailing blanks, blank-only lines, CRLF, final newline or not, sparse labels); "
